@@ -55,6 +55,18 @@ func runC14(c *fw.Case) {
 	for i, k := range universe {
 		universe[i] = append(make([]byte, 0, len(k)), k...) // own allocation, no spare capacity, no neighbours
 	}
+	if c.Idx%5 == 2 {
+		// every key is a prefix of ONE caller buffer (path-like keys cut from one array: "user", "user:1", "user:1:name"):
+		// same start address, different lengths, capacity clipped to the length
+		buf := gen.Bytes(r, len(universe)+1)
+		for i := range universe {
+			universe[i] = buf[: i+1 : i+1]
+		}
+		if r.Intn(4) == 0 {
+			universe[0] = buf[:0:0]
+		}
+		c.Obs("universes_of_prefixes_of_one_buffer", 1)
+	}
 	steps := 1 + r.Intn(200)
 	everBytes := uint64(0)
 	sawDelPresent, sawReadd, flushed := false, false, false
